@@ -28,6 +28,8 @@ def handle : List String → Option String
       (strs (← unhexList files)) (strs (← unhexList globs))))
   | ["range", dir, labels] => do
     pure (out (underRange (cps (← unhex dir)) (strs (← unhexList labels))))
+  | ["target", dir, labels] => do
+    pure (out (underTarget (cps (← unhex dir)) (strs (← unhexList labels))))
   | ["clean", arg, labels] => do
     pure (out (cleanMatching Generated.Sqlite.likeCaseSensitiveReadOnly (cps (← unhex arg)) (strs (← unhexList labels))))
   | ["inside", path, trees] => do
